@@ -3,6 +3,8 @@ import Py4hwV.Proofs.C18Place
 import Py4hwV.Proofs.C18Column
 import Py4hwV.Proofs.C18Track
 import Py4hwV.Proofs.C18Pass
+import Py4hwV.Proofs.C18PinsLayout
+import Py4hwV.Proofs.C18PinsRoute
 /-
   C18 — A schematic shows the circuit that exists: every block once, wired as built.
 
@@ -560,5 +562,202 @@ theorem exMC_passWire_ok :
 /-- the hypotheses of `track_eq_iff` are satisfiable (three nets of two wires leaving column 0) -/
 theorem ex_tracks : trackOf [⟨5, 0, 0, 1⟩, ⟨6, 2, 0, 1⟩, ⟨5, 0, 0, 3⟩] 0 = some 0 ∧ trackOf [⟨5, 0, 0, 1⟩, ⟨6, 2, 0, 1⟩, ⟨5, 0, 0, 3⟩] 1 = some 1 ∧
     trackOf [⟨5, 0, 0, 1⟩, ⟨6, 2, 0, 1⟩, ⟨5, 0, 0, 3⟩] 2 = some 0 := by decide +kernel
+
+/- ================================================================================================
+   PART 3 — pin geometry and sizes of the symbol classes (model Schem/Pins.lean: getPortSinkPos / getPortSourcePos / getWidth /
+   getHeight of every class of schematic_symbols.py as functions of the class, the port names and the port counts; tied per run by
+   the `pin-model` stream: the real methods on instantiated symbols for every class × port counts up to a bound, and every symbol
+   of every explored layout), and its COMPOSITION with the placement model.
+   Negative results on the unchanged code: `binop3_collision` (C18-binop-third-pin), `scope4_outside` / `scope4_meets_marker`
+   (C18-scope-pin-below-box), `same_name_same_pos` (ports with a repeated name: outside the modelled domain `Nodup`).
+   ================================================================================================ -/
+open Schem.Pins
+
+/-- the name lookup of the symbols finds the port it was asked for when the port names are pairwise different -/
+theorem lastIdx_nodup (l : List Nat) (i : Nat) (hn : l.Nodup) (hi : i < l.length) : (l[i]?).bind (lastIdx l) = some i :=
+  Schem.Pins.lastIdx_nodup l i hn hi
+
+/-- PINS_INJECTIVE — every symbol class, every port count (names pairwise different): distinct pins of one symbol have distinct
+    positions whenever the port counts are within `Fits` … -/
+theorem pins_injective (s : Shape) (hi : s.ins.Nodup) (ho : s.outs.Nodup) (hf : s.Fits) : s.Injective :=
+  Schem.Pins.injective_of_fits s hi ho hf
+
+/-- … and ONLY then: `Fits` is the exact characterisation, class by class -/
+theorem pins_injective_iff (s : Shape) (hi : s.ins.Nodup) (ho : s.outs.Nodup) : s.Injective ↔ s.Fits :=
+  Schem.Pins.injective_iff_fits s hi ho
+
+/-- for the port counts the library's constructors can produce (`Realizable`, checked on every symbol of every explored layout)
+    exactly one case fails: the round Add/Sub/Mul symbol with a third input -/
+theorem pins_injective_realizable (s : Shape) (hr : s.Realizable) (hi : s.ins.Nodup) (ho : s.outs.Nodup) :
+    s.Injective ↔ ¬ (s.cls = .binop ∧ s.ins.length = 3) :=
+  (Schem.Pins.injective_iff_fits s hi ho).trans (Schem.Pins.realizable_fits_iff s hr)
+
+/-- the counterexample (listed finding C18-binop-third-pin), for EVERY such symbol: inputs 1 and 2 both at (8, 50) -/
+theorem binop3_collision (s : Shape) (hc : s.cls = .binop) (hi : s.ins.Nodup) (h3 : 3 ≤ s.ins.length) :
+    s.sinkPos 1 = some (8, 50) ∧ s.sinkPos 2 = some (8, 50) ∧ ¬ s.Injective := Schem.Pins.binop3_collision s hc hi h3
+
+/-- … and the only one: on a round symbol two different pins on one pixel are both inputs other than input 0 — in particular the
+    OUTPUT pins (sum, carry-out) never coincide with each other or with an input (the clause seed C18l attacks) -/
+theorem binop_only_collision (s : Shape) (hc : s.cls = .binop) (hi : s.ins.Nodup) (ho : s.outs.Nodup) (p q : PinRef) (pt : Pt)
+    (vp : s.valid p) (vq : s.valid q) (hp : s.pos p = some pt) (hq : s.pos q = some pt) (hne : p ≠ q) :
+    ∃ a b, p = .inp a ∧ q = .inp b ∧ 1 ≤ a ∧ 1 ≤ b := Schem.Pins.binop_only_collision s hc hi ho p q pt vp vq hp hq hne
+
+/-- outside `Nodup`: two output ports with the same name get the same pixel, in every class -/
+theorem same_name_same_pos (s : Shape) (i j : Nat) (h : s.outs[i]? = s.outs[j]?) : s.srcPos i = s.srcPos j :=
+  Schem.Pins.same_name_same_pos s i j h
+
+/-- every pin lies in the closed box of its symbol (+ 3 pixels below: NotSymbol, BufSymbol) — every class, every port count in `Tidy`,
+    whatever the names -/
+theorem pins_in_box (s : Shape) (ht : s.Tidy) : s.InBox := Schem.Pins.inBox_of_tidy s ht
+
+theorem pins_tidy_realizable (s : Shape) (hr : s.Realizable) : s.Tidy ↔ ¬ (s.cls = .scope ∧ 4 ≤ s.ins.length) :=
+  Schem.Pins.realizable_tidy_iff s hr
+
+/-- the counterexample (C18-scope-pin-below-box): the fourth pin of a Scope is 25 pixels below its box … -/
+theorem scope4_outside (s : Shape) (hc : s.cls = .scope) (h4 : 4 ≤ s.ins.length) :
+    s.sinkPos 3 = some (0, 105) ∧ s.height = 80 ∧ ¬ s.InBox := Schem.Pins.scope4_outside s hc h4
+
+/-- … exactly on the sink pin of a pass-through marker placed by replaceAsColRow in the next row of the same column -/
+theorem scope4_meets_marker (s m : Shape) (hs : s.cls = .scope) (h4 : 4 ≤ s.ins.length) (hm : m.cls = .pass) (x y : Int) :
+    ∃ d e, s.sinkPos 3 = some d ∧ m.sinkPos 0 = some e ∧ (x + d.1, y + d.2) = (x + e.1, (y + s.height + Cfg.std.mv) + e.2) :=
+  Schem.scope4_meets_marker s m hs h4 hm x y
+
+theorem std_roomy : Cfg.std.Roomy := Schem.Place.std_roomy
+
+/-- within one drawn symbol: two pins on the same pixel are the same pin -/
+theorem sym_pins_injective (a : Sym) (sh : Shape) (hs : a.HasShape sh) (hinj : sh.Injective) (p q : PinRef) (pt : Pt)
+    (hp : a.pinAt p = some pt) (hq : a.pinAt q = some pt) : p = q := Schem.sym_pins_injective a sh hs hinj p q pt hp hq
+
+/-- across symbols: replaceAsColRow (margins 5 / 15) keeps the pins of two different symbols apart -/
+theorem pins_apart_of_placement (L : Layout) (cfg : Cfg) (hcfg : cfg.Roomy) (tracks : List Nat) (hp : L.PlacedBy cfg tracks)
+    (i j : Nat) (a b : Sym) (ha : L.syms[i]? = some a) (hb : L.syms[j]? = some b) (hij : i ≠ j)
+    (hba : a.PinsInBox) (hbb : b.PinsInBox) (p q : PinRef) (pt : Pt) (h1 : a.pinAt p = some pt) (h2 : b.pinAt q = some pt) : False :=
+  Schem.pins_apart_of_placedBy L cfg hcfg tracks hp i j a b ha hb hij hba hbb p q pt h1 h2
+
+/-- COMPOSITION (placement model ∘ pin model), all layouts: coordinates from replaceAsColRow with roomy margins, boxes and pins
+    from the pin model with port counts that keep pins apart and inside the box ⇒ no two different pins of the circuit share a
+    pixel.  `_partial` of the full composition: it covers the END POINTS of the figures (a net that starts or ends on a pin
+    touches no pin of any other wire THERE); that no segment passes over a foreign pin on its way is still validated per design. -/
+theorem pinPos_injective (L : Layout) (cfg : Cfg) (hcfg : cfg.Roomy) (tracks : List Nat) (hp : L.PlacedBy cfg tracks)
+    (hshape : ∀ (k : Nat) (s : Sym), L.syms[k]? = some s → ∃ sh : Shape, s.HasShape sh ∧ sh.Injective ∧ sh.InBox)
+    (p q : Pin) (pt : Pt) (h1 : L.pinPos p = some pt) (h2 : L.pinPos q = some pt) : p = q :=
+  Schem.pinPos_injective L cfg hcfg tracks hp hshape p q pt h1 h2
+
+/- ---------------------------------------------------------------- non-vacuity -/
+/-- an Add with carry-out (2 inputs, 2 outputs — the configuration of seed C18l) is inside `Fits`: its four pins are distinct -/
+theorem ex_addco_injective : (Shape.mk .binop 0 [0, 1] [2, 3]).Injective ∧ (Shape.mk .binop 0 [0, 1] [2, 3]).Realizable ∧
+    (Shape.mk .binop 0 [0, 1] [2, 3]).srcPos 0 = some (50, 21) ∧ (Shape.mk .binop 0 [0, 1] [2, 3]).srcPos 1 = some (50, 49) :=
+  ⟨pins_injective _ (by decide) (by decide) (by simp [Shape.Fits]), by simp [Shape.Realizable], by decide +kernel, by decide +kernel⟩
+
+/-- the shapes of the twelve symbols of the real layout `exL` -/
+def exShapes : List Shape :=
+  [⟨.inPort, 0, [], [0]⟩, ⟨.inPort, 0, [], [0]⟩, ⟨.binop, 0, [0, 1], [2]⟩, ⟨.reg, 0, [0], [1]⟩, ⟨.and_, 0, [0, 1], [2]⟩, ⟨.outPort, 0, [0], []⟩,
+   ⟨.pass, 0, [0], [0]⟩, ⟨.pass, 0, [0], [0]⟩, ⟨.fbStart, 0, [0], [0]⟩, ⟨.pass, 0, [0], [0]⟩, ⟨.pass, 0, [0], [0]⟩, ⟨.fbStop, 0, [0], [0]⟩]
+
+theorem ex_shapes_ok : (List.range 12).all (fun k => match exL.syms[k]?, exShapes[k]? with
+    | some s, some sh => s.hasShapeB sh && sh.fitsB && sh.tidyB && sh.realizableB | _, _ => false) = true := by decide +kernel
+
+theorem fitsB_sound (s : Shape) (h : s.fitsB = true) : s.Fits := by
+  obtain ⟨cls, iw, ins, outs⟩ := s
+  cases cls <;> simp only [Shape.fitsB, Shape.Fits, Bool.and_eq_true, Bool.or_eq_true, decide_eq_true_eq, bne_iff_ne, List.isEmpty_iff] at h ⊢ <;>
+    first | exact h | trivial | exact (or_assoc.1 h)
+
+theorem tidyB_sound (s : Shape) (h : s.tidyB = true) : s.Tidy := by
+  obtain ⟨cls, iw, ins, outs⟩ := s
+  cases cls <;> simp only [Shape.tidyB, Shape.Tidy, Bool.and_eq_true, decide_eq_true_eq] at h ⊢ <;> first | exact h | trivial
+
+/-- the hypotheses of `pinPos_injective` hold for the real exported layout `exL` (tracks 3,4,2,0, constants of schematic.py) … -/
+theorem ex_pinPos_hyps : exL.PlacedBy Cfg.std [3, 4, 2, 0] ∧
+    ∀ (k : Nat) (s : Sym), exL.syms[k]? = some s → ∃ sh : Shape, s.HasShape sh ∧ sh.Injective ∧ sh.InBox := by
+  refine ⟨Layout.placedByB_sound _ _ _ (by decide +kernel), ?_⟩
+  intro k s hk
+  have hlt : k < 12 := by
+    apply Classical.byContradiction
+    intro hn
+    rw [Array.getElem?_eq_none (by show exL.syms.size ≤ k; simp [exL]; omega)] at hk
+    cases hk
+  have := List.all_eq_true.1 ex_shapes_ok k (List.mem_range.2 hlt)
+  rw [hk] at this
+  cases hsh : exShapes[k]? with
+  | none => simp [hsh] at this
+  | some sh =>
+    simp only [hsh, Bool.and_eq_true] at this
+    obtain ⟨⟨⟨h1, h2⟩, h3⟩, _⟩ := this
+    have hn : sh.ins.Nodup ∧ sh.outs.Nodup := by
+      have hm := List.mem_of_getElem? hsh
+      simp only [exShapes, List.mem_cons, List.not_mem_nil, or_false] at hm
+      rcases hm with rfl | rfl | rfl | rfl | rfl | rfl | rfl | rfl | rfl | rfl | rfl | rfl <;> exact ⟨by decide, by decide⟩
+    exact ⟨sh, Sym.hasShapeB_sound s sh h1, pins_injective sh hn.1 hn.2 (fitsB_sound sh h2), pins_in_box sh (tidyB_sound sh h3)⟩
+
+/-- … so its eleven circuit pins are on eleven different pixels -/
+theorem ex_pins_distinct (p q : Pin) (pt : Pt) (h1 : exL.pinPos p = some pt) (h2 : exL.pinPos q = some pt) : p = q :=
+  pinPos_injective exL Cfg.std std_roomy [3, 4, 2, 0] ex_pinPos_hyps.1 ex_pinPos_hyps.2 p q pt h1 h2
+
+/-- C18-scope-pin-below-box on the real code: block `in0..in3; Not(in0); And2(in1, not); Scope(in0, in1, in2, in3)` — netlist and
+    layout exported from the unchanged /repo.  Pin 3 of the Scope (wire in3) and the sink pin of the pass-through marker of wire in1
+    (row below, same column) are both at (75, 183): the figure of in1 touches a pin of in3. -/
+def exScopeD : Design := { insts := [⟨[0], [5]⟩, ⟨[1, 5], [4]⟩, ⟨[0, 1, 2, 3], []⟩], inp := [0, 1, 2, 3], outp := [4] }
+
+def exScopeL : Layout :=
+  { syms := #[
+      ⟨.inPort 0, some (0, 0), 0, 15, 15, 20, [], [some (15, 28)]⟩,
+      ⟨.inPort 1, some (1, 0), 0, 78, 15, 20, [], [some (15, 91)]⟩,
+      ⟨.inPort 2, some (3, 0), 0, 208, 15, 20, [], [some (15, 221)]⟩,
+      ⟨.inPort 3, some (4, 0), 0, 243, 15, 20, [], [some (15, 256)]⟩,
+      ⟨.inst 0, some (0, 1), 75, 15, 40, 30, [some (75, 48)], [some (115, 48)]⟩,
+      ⟨.inst 1, some (0, 2), 195, 15, 50, 48, [some (200, 33), some (200, 53)], [some (245, 43)]⟩,
+      ⟨.inst 2, some (1, 1), 75, 78, 80, 80, [some (75, 99), some (75, 127), some (75, 155), some (75, 183)], []⟩,
+      ⟨.outPort 0, some (0, 3), 275, 15, 15, 20, [some (275, 28)], []⟩,
+      ⟨.pass, some (2, 1), 75, 173, 20, 20, [some (75, 183)], [some (95, 183)]⟩
+    ],
+    mat := [[some 0, some 4, some 5, some 7], [some 1, some 6, none, none], [none, some 8, none, none], [some 2, none, none, none],
+            [some 3, none, none, none]],
+    nets := [
+      ⟨0, 0, some 0, 4, some 0, [(15, 28), (30, 28), (30, 48), (75, 48)]⟩,
+      ⟨5, 4, some 0, 5, some 1, [(115, 48), (170, 48), (170, 53), (200, 53)]⟩,
+      ⟨0, 0, some 0, 6, some 0, [(15, 28), (30, 28), (30, 99), (75, 99)]⟩,
+      ⟨1, 1, some 0, 6, some 1, [(15, 91), (40, 91), (40, 127), (75, 127)]⟩,
+      ⟨2, 2, some 0, 6, some 2, [(15, 221), (50, 221), (50, 155), (75, 155)]⟩,
+      ⟨3, 3, some 0, 6, some 3, [(15, 256), (60, 256), (60, 183), (75, 183)]⟩,
+      ⟨4, 5, some 0, 7, some 0, [(245, 43), (260, 43), (260, 28), (275, 28)]⟩,
+      ⟨1, 1, some 0, 8, none, [(15, 91), (40, 91), (40, 183), (75, 183)]⟩,
+      ⟨1, 8, none, 5, some 0, [(95, 183), (180, 183), (180, 33), (200, 33)]⟩
+    ] }
+
+/-- the property is FALSE for this well-driven block of the unchanged tree: exactly one clause fails, `foreign` for wire in1 -/
+theorem exScope_counterexample : exScopeD.WellDriven ∧ check exScopeD exScopeL = [Err.wire 1 .foreignPin] ∧ ¬ Holds exScopeD exScopeL := by
+  have h : check exScopeD exScopeL = [Err.wire 1 .foreignPin] := by decide +kernel
+  refine ⟨(wellDrivenB_iff exScopeD).1 (by decide +kernel), h, fun hh => ?_⟩
+  rw [checker_complete _ _ hh] at h
+  cases h
+
+/-- its placement is the modelled one and its Scope has the modelled pins: the failing hypothesis of `pinPos_injective` is `InBox` -/
+theorem exScope_shape : exScopeL.PlacedBy Cfg.std [4, 2, 1, 0] ∧
+    (∀ s, exScopeL.syms[6]? = some s → s.HasShape ⟨.scope, 0, [0, 1, 2, 3], []⟩) ∧ ¬ (Shape.mk .scope 0 [0, 1, 2, 3] []).InBox :=
+  ⟨Layout.placedByB_sound _ _ _ (by decide +kernel),
+   fun s hs => Sym.hasShapeB_sound s _ (by
+     have : exScopeL.syms[6]? = some ⟨.inst 2, some (1, 1), 75, 78, 80, 80, [some (75, 99), some (75, 127), some (75, 155), some (75, 183)], []⟩ := rfl
+     rw [this] at hs
+     cases hs
+     decide +kernel),
+   (scope4_outside _ rfl (by decide)).2.2⟩
+
+/-- COMPOSITION of three models (placement ∘ pin geometry ∘ square router), all layouts: the vertical run of a net leaving column c on
+    track t (x = `mpx`, routeNetSquare) is at the x of NO pin of any symbol — it lies strictly right of every pin of the columns ≤ c and
+    strictly left of every pin of the columns > c.  Part of the clause "no pin of any other wire" for INTERIOR points of the figures
+    (what remains validated per design: the two horizontal runs inside the source's and the sink's own column). -/
+theorem vertical_run_misses_pins (L : Layout) (cfg : Cfg) (hcfg : cfg.NonNeg) (hns : 0 < cfg.ns) (hts : 0 < cfg.ts)
+    (tracks : List Nat) (hp : L.PlacedBy cfg tracks) (c t n : Nat) (hn : tracks[c]? = some n) (ht : t < n)
+    (i : Nat) (a : Sym) (ha : L.syms[i]? = some a) (hba : a.PinsInBox) (p : PinRef) (pt : Pt) (h1 : a.pinAt p = some pt) :
+    pt.1 ≠ Schem.Track.mpx cfg (xAt cfg tracks L.sizes c) (colW L.sizes c) t :=
+  Schem.vertical_run_misses_pins L cfg hcfg hns hts tracks hp c t n hn ht i a ha hba p pt h1
+
+/-- non-vacuity on the real layout `exL`: the vertical run of the net reg.q → and.a (leaves column 1 on track 0: x = 70 + 65 + 15 = 150,
+    as in the exported polyline) misses the pin add.b = (203, 65) of symbol 2 -/
+example : (203 : Int) ≠ Schem.Track.mpx Cfg.std (xAt Cfg.std [3, 4, 2, 0] exL.sizes 1) (colW exL.sizes 1) 0 := by
+  refine vertical_run_misses_pins exL Cfg.std std_nonneg (by decide) (by decide) [3, 4, 2, 0] ex_pinPos_hyps.1 1 0 4 rfl (by decide) 2 _ rfl ?_
+    (.inp 1) (203, 65) rfl
+  obtain ⟨sh, hs, _, hb⟩ := ex_pinPos_hyps.2 2 _ rfl
+  exact fun p' pt' h => Schem.sym_pin_in_box _ sh hs hb p' pt' h
 
 end C18
